@@ -45,7 +45,9 @@ type label struct {
 	tgt  string // symlink target kind: "file", "dir", "dangling"
 }
 
-var gitBodies = []string{"b.txt\n", "/a\n", "a/\n", "*.txt\n", "# c\n\nb.txt"}
+// the first four bodies are in the quick tier: plain name, rooted, directory-only, and a wildcard
+// followed by a negation of one of its matches (the last matching line of a file decides)
+var gitBodies = []string{"b.txt\n", "/a\n", "a/\n", "*.txt\n!b.txt\n", "*.txt\n", "# c\n\nb.txt"}
 
 func labels(thorough bool) []label {
 	ls := []label{
@@ -63,8 +65,8 @@ func labels(thorough bool) []label {
 		{name: "pkg.json", kind: memfs.File, data: "x"},
 	}
 	for i, b := range gitBodies {
-		if !thorough && i >= 3 {
-			// quick keeps the three structurally different bodies
+		if !thorough && i >= 4 {
+			// quick keeps the four structurally different bodies
 			continue
 		}
 		ls = append(ls, label{name: ".gitignore", kind: memfs.File, data: b})
@@ -348,6 +350,39 @@ type gitRule struct {
 	pat     string
 	dirOnly bool
 	rooted  bool
+	neg     bool // "!pattern": re-includes what an earlier line of the same file excluded
+}
+
+// gitVerdict applies the rules to one path. Within one .gitignore file the LAST matching line
+// decides (git's rule, and the reason negations exist). When one file excludes the path and a
+// deeper file's negation re-includes it, git would include it; whether the scanner honours a
+// negation across files is not fixed by the property text: such cells are don't-cares.
+func gitVerdict(rules []gitRule, p string, isDir bool) (ignored, dontcare bool) {
+	perFile := map[string]int{} // base -> 0 none, 1 ignore, 2 include
+	var order []string
+	for _, r := range rules {
+		if _, ok := perFile[r.base]; !ok {
+			order = append(order, r.base)
+			perFile[r.base] = 0
+		}
+		if r.matches(p, isDir) {
+			if r.neg {
+				perFile[r.base] = 2
+			} else {
+				perFile[r.base] = 1
+			}
+		}
+	}
+	ign, inc := false, false
+	for _, b := range order {
+		switch perFile[b] {
+		case 1:
+			ign = true
+		case 2:
+			inc = true
+		}
+	}
+	return ign, ign && inc
 }
 
 func parseGit(base, body string) []gitRule {
@@ -357,6 +392,10 @@ func parseGit(base, body string) []gitRule {
 			continue
 		}
 		r := gitRule{base: base, pat: l}
+		if strings.HasPrefix(r.pat, "!") {
+			r.neg = true
+			r.pat = strings.TrimPrefix(r.pat, "!")
+		}
 		if strings.HasSuffix(r.pat, "/") {
 			r.dirOnly = true
 			r.pat = strings.TrimSuffix(r.pat, "/")
@@ -452,10 +491,11 @@ func (m *model) skipDir(p string, rules []gitRule) bool {
 		}
 	}
 	if m.o.Git {
-		for _, r := range rules {
-			if r.matches(p, true) {
-				return true
-			}
+		if ign, dc := gitVerdict(rules, p, true); dc {
+			m.markSubtreeDC(p)
+			return true
+		} else if ign {
+			return true
 		}
 	}
 	if m.re != nil && m.re.MatchString(p) {
@@ -465,6 +505,26 @@ func (m *model) skipDir(p string, rules []gitRule) bool {
 		return true
 	}
 	return false
+}
+
+// markSubtreeDC makes every (extractor, file below p) pair a don't-care.
+func (m *model) markSubtreeDC(p string) {
+	var walk func(q string, n *memfs.Node)
+	walk = func(q string, n *memfs.Node) {
+		for _, c := range n.Children {
+			cq := join(q, c.Name)
+			if c.Kind == memfs.Dir {
+				walk(cq, c)
+				continue
+			}
+			for _, e := range m.exs {
+				m.dc[e.name+"|"+cq] = true
+			}
+		}
+	}
+	if n := m.node(p); n != nil {
+		walk(p, n)
+	}
 }
 
 func join(d, n string) string {
@@ -516,10 +576,13 @@ func (m *model) file(p string, n *memfs.Node, rules []gitRule) {
 		return
 	}
 	if m.o.Git {
-		for _, r := range rules {
-			if r.matches(p, false) {
-				return
+		if ign, dc := gitVerdict(rules, p, false); dc {
+			for _, e := range m.exs {
+				m.dc[e.name+"|"+p] = true
 			}
+			return
+		} else if ign {
+			return
 		}
 	}
 	for _, e := range m.exs {
@@ -599,11 +662,7 @@ func reachedByWholeTree(root *memfs.Node, o opts, re *regexp.Regexp, gl glob.Glo
 			}
 			ign := false
 			if o2.Git {
-				for _, r := range rules {
-					if r.matches(q, false) {
-						ign = true
-					}
-				}
+				ign, _ = gitVerdict(rules, q, false)
 			}
 			if !ign {
 				reached[q] = true
@@ -934,7 +993,7 @@ func main() {
 	r.Set("bound", map[string]any{"max_nodes_completed": completedNodes, "max_option_deviations": maxDev, "extractor_sets": len(exSets)})
 	r.Assume("reference dispatch model (this file, ~200 lines) states git's .gitignore semantics for the 5-pattern alphabet and the skip rules of the property text")
 	r.Assume("regular-expression and glob *matching* are taken from the same libraries the implementation uses; only the dispatch logic is under test")
-	r.Finish(fmt.Sprintf("every tree with <=%d labelled nodes (names a, a.d, b.txt, 'd e', -x, .gitignore(5 bodies), pkg.json; dirs, files of size 0/1/5, exec bit, symlinks to file/dir/dangling, named pipe) x every option vector with <=%d deviations from the defaults (skip list, regex, glob, gitignore, requested paths incl. dir+file and '.', sub-dir cut-off, max size 1/5, symlinks, absolute paths, ReadDirFile on/off, virtual root vs. root with a host path and absolute skip/request paths) x %d extractor sets; Scanner.Scan over memfs vs reference dispatch model (trees <=3 nodes: scanned twice with the same configuration and plugin instances, second scan must equal the first); plus one directory of W entries for every W<=%d and 2^k-1,2^k,2^k+1,1.5*2^k up to %d x 3 placements x 5 directory-listing behaviours (ReadDir, ReadDirFile full batches, short batches of 1/3/100); non-trivial = some option active and >=1 extraction expected", maxNodes, maxDev, len(exSets), ev.Pick(r, 40, 300), ev.Pick(r, 1024, 4096)), completedNodes == maxNodes)
+	r.Finish(fmt.Sprintf("every tree with <=%d labelled nodes (names a, a.d, b.txt, 'd e', -x, .gitignore(6 bodies incl. a negation), pkg.json; dirs, files of size 0/1/5, exec bit, symlinks to file/dir/dangling, named pipe) x every option vector with <=%d deviations from the defaults (skip list, regex, glob, gitignore, requested paths incl. dir+file and '.', sub-dir cut-off, max size 1/5, symlinks, absolute paths, ReadDirFile on/off, virtual root vs. root with a host path and absolute skip/request paths) x %d extractor sets; Scanner.Scan over memfs vs reference dispatch model (trees <=3 nodes: scanned twice with the same configuration and plugin instances, second scan must equal the first); plus one directory of W entries for every W<=%d and 2^k-1,2^k,2^k+1,1.5*2^k up to %d x 3 placements x 5 directory-listing behaviours (ReadDir, ReadDirFile full batches, short batches of 1/3/100); non-trivial = some option active and >=1 extraction expected", maxNodes, maxDev, len(exSets), ev.Pick(r, 40, 300), ev.Pick(r, 1024, 4096)), completedNodes == maxNodes)
 }
 
 func replay(r *ev.Run, p string) {
